@@ -633,6 +633,73 @@ fn c03_gen_b(seed: u64, run: u64, thorough: bool) -> Plan {
     // in the two executions that this family compares)
     plan
 }
+/// World B, the client's side of the same question: a genuine Client whose "server" is a raw
+/// socket driven by the HostileServer adversary (connection request answered by hand with
+/// boundary limits, then crafted frames). The application queues packets before and after the
+/// handshake, steps, flushes and disconnects as usual.
+fn c03_gen_b_server(seed: u64, run: u64, thorough: bool) -> Plan {
+    let mut r = Rng::keyed(&[seed, run, 0xb035]);
+    let mut plan = Plan::new("C03", "b_hostile_server", seed, run);
+    plan.fate_seed = Some(crate::rng::key(&[seed, run, 0xfa7e]));
+    let mut cfg = sample_cfg(&mut r);
+    cfg.active_timeout_ms = *r.pick(&[2_000u64, 20_000, 60_000]);
+    cfg.max_packet_size = cfg.max_packet_size.min(200_000);
+    plan.endpoints.push(EndpointSpec { kind: EndpointKind::Raw, addr: server_addr(), clock_ppm: 1_000_000, echo: false, nonces: Vec::new() });
+    plan.endpoints.push(EndpointSpec { kind: EndpointKind::Client { cfg: cfg.clone(), server: 0 }, addr: client_addr(0), clock_ppm: 1_000_000, echo: false, nonces: if r.chance(0.3) { vec![0u32.wrapping_sub(r.range(1, 6000) as u32)] } else { Vec::new() } });
+    plan.push(0, 0, Op::Create { ep: 0 });
+    let latency = r.range(100, 50_000);
+    plan.push(0, 2, Op::Link { from: None, to: None, rule: clean_rule(latency) });
+    let hostile_until = r.range(3, if thorough { 25 } else { 10 }) * 1_000_000;
+    let horizon = hostile_until + 5_000_000;
+    plan.push(1000, 5, Op::StepEvery { ep: 0, period_us: 500_000, until_us: horizon });
+    let t_create = r.below(200_000);
+    plan.push(t_create, 1, Op::Create { ep: 1 });
+    let period = *r.pick(&[0u64, 1_000, 10_000, 60_000]);
+    if period == 0 {
+        // 0 ms spacing: several steps at the same instant, now and then
+        let mut t = t_create + 1000;
+        while t < horizon {
+            for _ in 0..r.range(1, 4) {
+                plan.push(t, r.u32() | 1, Op::Step { ep: 1 });
+            }
+            t += r.range(1_000, 80_000);
+        }
+    } else {
+        plan.push(t_create + r.below(period), r.u32() | 1, Op::StepEvery { ep: 1, period_us: period, until_us: horizon });
+    }
+    let mut tag = 0u32;
+    // packets handed over while the handshake is pending (they wait for the negotiated limits)
+    // and during the connection's life
+    for _ in 0..r.range(0, 12) {
+        let len = *r.pick(&[0u64, 1, 12, 100, 1448, 1449, 3000, 20_000, cfg.max_packet_size]);
+        plan.push(t_create + r.below(2 * latency + 150_000), 0x4000_0000 + tag, Op::Send { ep: 1, to: None, ch: r.below(64) as u8, mode: r.below(4) as u8, len: len.min(cfg.max_packet_size) as u32, tag });
+        tag += 1;
+    }
+    for _ in 0..r.range(0, 40) {
+        plan.push(r.range(t_create, hostile_until), 0x4000_0000 + tag, Op::Send { ep: 1, to: None, ch: r.below(4) as u8, mode: r.below(4) as u8, len: r.range(0, 5000).min(cfg.max_packet_size) as u32, tag });
+        tag += 1;
+    }
+    for _ in 0..r.range(0, 6) {
+        plan.push(r.range(t_create, horizon), r.u32() | 1, Op::Flush { ep: 1 });
+    }
+    if r.chance(0.4) {
+        let t = r.range(t_create, horizon);
+        plan.push(t, r.u32() | 1, if r.chance(0.5) { Op::Disconnect { ep: 1, to: None } } else { Op::DisconnectNow { ep: 1, to: None } });
+    }
+    plan.params.insert("hostile_until_us".into(), hostile_until as f64);
+    plan.params.insert("hostile_max".into(), r.range(50, 1500) as f64);
+    if r.chance(0.2) {
+        plan.params.insert("hostile_big".into(), 1.0);
+    }
+    plan.params.insert("short_ch".into(), 63.0);
+    plan.adversary = "hostile_server".into();
+    plan.end_us = horizon;
+    plan.sort();
+    plan
+}
+fn c03_adv_b_server(plan: &Plan) -> Option<Box<dyn Adversary>> {
+    Some(Box::new(crate::adversary::HostileServer::new(plan)))
+}
 fn c03_adv_b(plan: &Plan) -> Option<Box<dyn Adversary>> {
     Some(Box::new(ConnectedAttacker::new(plan)))
 }
@@ -653,6 +720,8 @@ pub fn c03() -> CheckDef {
                 what: "genuine pair under faults plus a hostile middlebox injecting crafted frames at both ends" },
             Family { name: "b_connected_attacker", world: "B", weight: 3, gen: c03_gen_b, oracles: c03_oracles_b, adversary: Some(c03_adv_b), keep_workload: true, custom: Some(twin_events_run),
                 what: "real Server with 1-2 genuine clients (echo traffic) attacked from 1-3 raw sockets: most complete the handshake by hand (SYN, read the SYN-ACK, return the nonce) and then send crafted data/sync/ack/handshake/disconnect frames computed from what the server tells them; the others send arbitrary frames; twin run without the attacker's datagrams: the genuine endpoints' event streams (Connect / Receive with payload / Disconnect / Error, with their times) must be identical, i.e. offending input is discarded and the other connections keep being served exactly as before" },
+            Family { name: "b_hostile_server", world: "B", weight: 2, gen: c03_gen_b_server, oracles: states_only, adversary: Some(c03_adv_b_server), keep_workload: true, custom: None,
+                what: "real Client whose server is a raw socket driven by a hostile peer: the connection request is answered by hand (nonce echoed, sometimes not; limits from {0, 1, 22, 23, 1448, 1449, ..., 2^32-1}; answered twice with different limits, followed by a refusal, or only after repeats), then crafted data/sync/ack/handshake/disconnect frames computed from what the client tells it; the application hands over packets of 0 bytes..max_packet_size before and after the handshake on all 64 channels, steps every 0-60 ms, flushes, disconnects" },
             Family { name: "a_genuine", world: "A", weight: 2, gen: c03_gen_genuine, oracles: states_only, adversary: None, keep_workload: false, custom: None,
                 what: "genuine pair only: loss, blackouts, delay, stalls (panics and hangs reachable without any forged frame)" },
         ],
